@@ -348,6 +348,6 @@ def run_shard(spec, col: Collector):
 
 def plan(tier, seed, scale=1.0):
     q = tier == "quick"
-    n, copies = (400, 8) if q else (10000, 16)
+    n, copies = (400, 8) if q else (60000, 16)
     return [dict(shard=f"b{c}", n=int(n * scale), budget_s=45 if q else 700, timeout_s=150 if q else 1200,
                  hash_seed=(seed * 17 + c) % 4294967295) for c in range(copies)]
